@@ -12,6 +12,8 @@ import Rustic.Lemmas.Packer
 import Rustic.Lemmas.ArchiveDedup
 import Rustic.Lemmas.SnapshotArchive
 import Rustic.Lemmas.TreeIter
+import Rustic.Lemmas.StreamerQueueSafety
+import Rustic.Lemmas.LockNet
 namespace Rustic.Props.C13
 open Rustic.Tree Rustic.Parent Rustic.Archive
 
@@ -111,6 +113,136 @@ theorem archiver_network_progress (s : NSt) (hlen : s.length = 16) (hne : ∃ i,
   exact ⟨i, s', h1, h2 ▸ hlen, h3⟩
 
 end Streamer
+
+section StreamerThreads
+open Rustic.StreamerQ
+
+/-- (1t) **Thread level, every schedule of consumer and loader threads, every capacity setting** (also the bounded
+counter-model: bounding the request queue breaks progress (1c), not what is yielded): at any moment the yielded trees are
+pairwise different and reachable; if the reachable trees are covered by `l` at most `l.length` trees are ever received
+(`recv` steps — with (1a') the run is finite); and when nothing is outstanding any more every reachable tree has been yielded.
+The loaders answer in whatever order the schedule lets them — the set of results does not depend on it. -/
+theorem treeStreamerOnce_threads_any_schedule (c : Cfg) (children : Nat → List Nat) (roots : List Nat) (acts : List Act) :
+    let s := runActs c children (init roots) acts
+    s.yielded.Nodup ∧ (∀ id ∈ s.yielded, Rustic.Streamer.Reach children roots id) ∧
+    (∀ l : List Nat, (∀ id, Rustic.Streamer.Reach children roots id → id ∈ l) → s.yielded.length ≤ l.length) ∧
+    (finished s = true → ∀ id, Rustic.Streamer.Reach children roots id → id ∈ s.yielded) := by
+  intro s
+  have hi : SInv children roots s := runActs_inv c acts _ (init_inv children roots)
+  exact ⟨inv_yielded_nodup hi, inv_yielded_reach hi,
+    fun l hl => Rustic.Streamer.nodup_subset_length _ l (inv_yielded_nodup hi) (fun x hx => hl x (inv_yielded_reach hi x hx)),
+    inv_finished_complete hi⟩
+
+/-- (1a) **The threads of `TreeStreamerOnce`, request queue `unbounded()` (the code as it is)** — consumer (`new` / `next`),
+any number `l > 0` of loader threads, result queue of any capacity `o > 0`, any forest: in EVERY state (reachable or not) in
+which something is outstanding some thread can make a step.  The consumer's `queue_in.send` never blocks, so it sends or
+receives; otherwise a loader hands its tree to the empty result queue; otherwise an idle loader takes a request. -/
+theorem treeStreamerOnce_threads_progress (l o : Nat) (hl : 0 < l) (ho : 0 < o) (children : Nat → List Nat) (s : TSt)
+    (hnf : finished s = false) : ∃ a s', step ⟨none, l, o⟩ children s a = some s' :=
+  progress_of_room ⟨none, l, o⟩ children s hl ho hnf (fun _ => rfl)
+
+/-- (1a'') **Termination at thread level**: if the reachable trees are covered by `l`, then in ANY schedule — any capacities,
+any interleaving of consumer and loaders — at most `4 * l.length` steps are ever made (each tree is sent, loaded, handed over
+and received once).  With (1a): under the unbounded queue every run that keeps making enabled steps reaches `finished` within
+that many steps, and (1t) says what it has yielded then. -/
+theorem treeStreamerOnce_threads_terminates (c : Cfg) (children : Nat → List Nat) (roots : List Nat) (l : List Nat)
+    (hl : ∀ id, Rustic.Streamer.Reach children roots id → id ∈ l) (acts : List Act) :
+    executed c children (init roots) acts ≤ 4 * l.length := by
+  have hi : SInv children roots (runActs c children (init roots) acts) := runActs_inv c acts _ (init_inv children roots)
+  have h1 := executed_eq_credit c children acts (init roots)
+  have h2 := credit_le hi l hl
+  have h0 : credit (init roots) = 0 := by simp [credit, init]
+  omega
+
+/-- (1a') … and between two `recv`s of the consumer every step decreases a measure (no livelock; the number of `recv`s is
+bounded by `treeStreamerOnce_terminates`). -/
+theorem treeStreamerOnce_threads_measure (c : Cfg) (children : Nat → List Nat) (s s' : TSt) (a : Act) (ha : a ≠ .recv)
+    (h : step c children s a = some s') : StreamerQ.measure s' < StreamerQ.measure s :=
+  step_measure c children s s' a ha h
+
+/-- (1b) **Where (1a) depends on the unbounded queue** — for ANY capacity setting: a state with something outstanding in
+which no thread can move is a consumer that still has a sub-tree (or root) to send and faces a FULL bounded request queue.
+With `cap = none` that cannot happen (1a); the result queue and the loaders never block on their own. -/
+theorem treeStreamerOnce_stuck_only_on_full_queue (c : Cfg) (children : Nat → List Nat) (s : TSt) (hl : 0 < c.loaders)
+    (ho : 0 < c.out) (hnf : finished s = false) (hstuck : ∀ a, step c children s a = none) :
+    s.todo ≠ [] ∧ ∃ n, c.cap = some n ∧ n ≤ s.inq.length := by
+  obtain ⟨h1, h2⟩ := stuck_only_on_full_queue c children s hl ho hnf hstuck
+  refine ⟨h1, ?_⟩
+  cases hc : c.cap with
+  | none => simp [room, hc] at h2
+  | some n => exact ⟨n, rfl, by simpa [room, hc] using h2⟩
+
+/-- (1c) **Counter-model: EVERY bounded request queue deadlocks** (`bounded(n)` for any n > 0, any number of loaders l > 0,
+any result-queue capacity o > 0 — the real constants are l = o = `MAX_TREE_LOADER` = 4).  (i) One directory with n + l + o + 1
+pairwise different sub-directories: after the directory has been received, a schedule exists that ends with the consumer
+blocked in `add_pending` (`queue_in.send`), every loader blocked in `out_tx.send`, nothing enabled, stream not finished.
+(ii) The same with n + l + o + 1 root trees (snapshots), inside `new`.  So "consumer queues all sub-trees before it receives
+again" + bounded request queue = deadlock for wide enough input; the progress theorem needs the unbounded queue. -/
+theorem bounded_queue_can_deadlock (n l o : Nat) (hn : 0 < n) (hl : 0 < l) (ho : 0 < o) :
+    (∃ acts, let s := runActs ⟨some n, l, o⟩ (wideDir (n + l + o + 1)) (init [0]) acts
+      finished s = false ∧ ∀ a, step ⟨some n, l, o⟩ (wideDir (n + l + o + 1)) s a = none) ∧
+    (∃ acts, let s := runActs ⟨some n, l, o⟩ (fun _ => []) (init (List.range (n + l + o + 1))) acts
+      finished s = false ∧ ∀ a, step ⟨some n, l, o⟩ (fun _ => []) s a = none) :=
+  ⟨⟨_, deadlock_one_directory n l o hn hl ho⟩, ⟨_, deadlock_roots n l o hn hl (fun _ => [])⟩⟩
+
+end StreamerThreads
+
+section AddRawLocks
+open Rustic.LockNet
+
+/-- (2a) **Concurrent `Packer::add_raw` (`prune --fast-repack`), the indexer `RwLock` as a resource** — any number of repack
+workers with any numbers of blobs, file-writer queue of any capacity > 0, any schedule of the code as it is (`keep = false`:
+the READ guard of `indexer.read().has(..)` is dropped before `raw_packer.write()`): every reachable state that is not final
+(all blobs added, all packs written and indexed) has an enabled step, and that step decreases a natural-number measure. -/
+theorem addRaw_lock_progress (cap : Nat) (hcap : 0 < cap) (lefts : List Nat) (acts : List LockNet.Act) :
+    let s := LockNet.runActs false cap (LockNet.init lefts) acts
+    ¬ final s → ∃ a s', LockNet.step false cap s a = some s' ∧ LockNet.measure s' < LockNet.measure s :=
+  addRaw_progress hcap lefts acts
+
+/-- (2a') … and no schedule makes more than `15 · (number of blobs)` steps (either variant of the code): together with (2a) every
+run of the code as it is that keeps making enabled steps ends in the final state. -/
+theorem addRaw_lock_terminates (keep : Bool) (cap : Nat) (lefts : List Nat) (acts : List LockNet.Act) :
+    LockNet.executed keep cap (LockNet.init lefts) acts ≤ 15 * lefts.sum := by
+  have h := executed_le_measure (keep := keep) (cap := cap) acts (LockNet.init lefts) (init_wf lefts)
+  rw [measure_init] at h
+  omega
+
+/-- (2b) **What progress needs: no indexer guard held while blocked.**  For BOTH variants of the code and every state: if
+every worker that holds the READ guard is in a phase whose next step cannot block (`chk`: the `has` check; `inPk`: adding to
+the open pack) — i.e. none holds it while waiting for `raw_packer.write()` or inside the blocking `Actor::send` — then a
+non-final state has an enabled step … -/
+theorem progress_needs_no_lock_across_blocking_send (keep : Bool) (cap : Nat) (s : LSt) (hcap : 0 < cap)
+    (hnl : NoLockWhileBlocked s) (hnf : ¬ final s) : ∃ a s', LockNet.step keep cap s a = some s' :=
+  progress_of_noLockWhileBlocked hcap hnl hnf
+
+/-- (2b') … conversely every deadlock of the lock / queue net is a violation of that discipline. -/
+theorem deadlock_means_lock_held_while_blocked (keep : Bool) (cap : Nat) (s : LSt) (hcap : 0 < cap) (hnf : ¬ final s)
+    (hstuck : ∀ a, LockNet.step keep cap s a = none) : ¬ NoLockWhileBlocked s := by
+  intro hnl
+  obtain ⟨a, s', h⟩ := progress_of_noLockWhileBlocked (keep := keep) hcap hnl hnf
+  rw [hstuck a] at h; cases h
+
+/-- (2c) **Counter-model: the READ guard kept until the end of `add_raw`** (`keep = true`; bound to a local instead of being
+a temporary of the `if` condition).  Writer queue of capacity 1, three workers: a schedule ends with worker 1 blocked in
+`Actor::send` on the full queue holding the READ guard and the raw_packer lock, worker 2 holding the READ guard waiting for
+raw_packer, the file writer's index stage waiting for `indexer.write()`, worker 0 unable to enter — nothing enabled, not final.
+(Two workers suffice for a stuck state with one reader inside `send`: `lock_held_across_send_can_deadlock_two`; a longer writer
+queue does not help: `lock_held_across_send_can_deadlock_cap4`, capacity 4, six workers — both in `Lemmas/LockNet.lean`.) -/
+theorem lock_held_across_send_can_deadlock :
+    ∃ acts, let s := LockNet.runActs true 1 (LockNet.init [2, 1, 1]) acts
+      final s = false ∧ ∀ a, LockNet.step true 1 s a = none :=
+  LockNet.lock_held_across_send_can_deadlock
+
+/-- (2c') **The shape of that deadlock for every queue capacity and every number of workers**: the index stage waits for
+`indexer.write()`, the writer queue is full, a worker is inside the blocking `Actor::send`, some worker holds the READ guard and
+all workers are outside `add_raw`, inside `send` or waiting for `raw_packer.write()` — then nothing can move, in either variant of
+the code.  (By (2a) the code as it is never gets there: its guard holders are always in `chk`.) -/
+theorem kept_guard_stuck_state (keep : Bool) (cap : Nat) (s : LSt) (hidx : s.idx = true) (hq : cap ≤ s.queue)
+    (hpc : ∀ w ∈ s.ws, w.pc = PC.out ∨ w.pc = PC.send ∨ w.pc = PC.wantPk) (hsend : ∃ w ∈ s.ws, w.pc = PC.send)
+    (hrd : ∃ w ∈ s.ws, w.rd = true) : ∀ a, LockNet.step keep cap s a = none :=
+  stuck_of_blocked_readers hidx hq hpc hsend hrd
+
+end AddRawLocks
 
 /-- (3) **No unindexed blob / pack.**  For every schedule of packer, file-writer and indexer events (any
 pack boundaries, any delay between writing a pack and indexing it, typed or untyped indexer set): after
@@ -249,6 +381,26 @@ example : moveN archiverNet [[], [1, 2, 5, 4], [6], [7], [], [], [], [], [], [11
 open Rustic.Streamer in
 /-- … and a worker blocked on the full data-packer hand-over is NOT enabled (the model has blocking sends) -/
 example : moveN archiverNet [[], [1], [], [], [9], [], [], [], [], [], [], [], [], [], [], []] 1 = none := by decide
+
+open Rustic.StreamerQ in
+/-- the real constants: request queue `bounded(1024)`, 4 loaders, result queue of 4 — a directory with 1033 sub-directories -/
+example : ∃ acts, let s := runActs ⟨some 1024, 4, 4⟩ (wideDir 1033) (init [0]) acts
+    finished s = false ∧ ∀ a, step ⟨some 1024, 4, 4⟩ (wideDir 1033) s a = none :=
+  (bounded_queue_can_deadlock 1024 4 4 (by omega) (by omega) (by omega)).1
+
+open Rustic.StreamerQ in
+/-- the same forest with the unbounded queue: the filling schedule leaves an enabled step (2 loaders, queues of 2, 7 sub-trees) -/
+example : (step ⟨none, 2, 2⟩ (wideDir 7) (runActs ⟨none, 2, 2⟩ (wideDir 7) (init [0])
+    ([.send, .load, .put 0, .recv] ++ fillSchedule 2 2 2)) .send).isSome = true := by decide
+
+open Rustic.StreamerQ in
+/-- a whole run of the thread model (unbounded queue, 2 loaders): root 0 with sub-trees 1, 2, 3 — finished, all yielded -/
+example : (runActs ⟨none, 2, 2⟩ (wideDir 3) (init [0])
+      [.send, .load, .put 0, .recv, .send, .send, .send, .load, .load, .put 1, .put 0, .recv, .load, .recv, .put 0,
+       .recv]).yielded = [0, 2, 1, 3] ∧
+    finished (runActs ⟨none, 2, 2⟩ (wideDir 3) (init [0])
+      [.send, .load, .put 0, .recv, .send, .send, .send, .load, .load, .put 1, .put 0, .recv, .load, .recv, .put 0,
+       .recv]) = true := by decide
 
 /-- writing is delayed behind three flushes: everything is indexed at finalize -/
 example : (finalizeAll (runEvs { typed := true }
